@@ -470,14 +470,14 @@ def _(e, c, a, raw):
     out.extend(st.chars[i:])
     return Str(out)
 
-def lower(e, ch):
-    if isinstance(ch, int): return ord(chr(ch).lower()) if len(chr(ch).lower()) == 1 else ch
-    if e.check(ch >= 0x80): raise Unsupported('case mapping of symbolic non-ASCII char')
-    return z3.If(z3.And(ch >= 65, ch <= 90), ch + 32, ch)
-def upper(e, ch):
-    if isinstance(ch, int): return ord(chr(ch).upper()) if len(chr(ch).upper()) == 1 else ch
-    if e.check(ch >= 0x80): raise Unsupported('case mapping of symbolic non-ASCII char')
-    return z3.If(z3.And(ch >= 97, ch <= 122), ch - 32, ch)
+def _case(e, ch, f, lo, hi, delta):
+    """case mapping of one char -> list of chars; a symbolic non-ASCII char is concretised to its model value"""
+    if not isinstance(ch, int):
+        if e.branch(ch < 0x80): return [z3.If(z3.And(ch >= lo, ch <= hi), ch + delta, ch)]
+        v = e.get_model().eval(ch, model_completion=True).as_long(); e.assume(ch == v); ch = v
+    return [ord(x) for x in f(chr(ch))]
+def lower(e, ch): return _case(e, ch, str.lower, 65, 90, 32)
+def upper(e, ch): return _case(e, ch, str.upper, 97, 122, -32)
 def ascii_lower(ch):
     if isinstance(ch, int): return ch + 32 if 65 <= ch <= 90 else ch
     return z3.If(z3.And(ch >= 65, ch <= 90), ch + 32, ch)
@@ -485,9 +485,9 @@ def ascii_upper(ch):
     if isinstance(ch, int): return ch - 32 if 97 <= ch <= 122 else ch
     return z3.If(z3.And(ch >= 97, ch <= 122), ch - 32, ch)
 @model('core::str::<impl str>::to_lowercase', 'alloc::str::<impl str>::to_lowercase')
-def _(e, c, a, raw): return Str([lower(e, ch) for ch in S(e, a[0]).chars])
+def _(e, c, a, raw): return Str(sum((lower(e, ch) for ch in S(e, a[0]).chars), []))
 @model('core::str::<impl str>::to_uppercase', 'alloc::str::<impl str>::to_uppercase')
-def _(e, c, a, raw): return Str([upper(e, ch) for ch in S(e, a[0]).chars])
+def _(e, c, a, raw): return Str(sum((upper(e, ch) for ch in S(e, a[0]).chars), []))
 @model('core::str::<impl str>::to_ascii_lowercase', 'alloc::str::<impl str>::to_ascii_lowercase')
 def _(e, c, a, raw): return Str([ascii_lower(ch) for ch in S(e, a[0]).chars])
 @model('core::str::<impl str>::to_ascii_uppercase', 'alloc::str::<impl str>::to_ascii_uppercase')
